@@ -18,6 +18,24 @@ def match_known(f, known):
     return None
 
 
+def k5_phase_for(pid):
+    """a phase for K2-backed checks: the K5 scenarios (faults at every allocation / construction point, lifetime scans),
+    keeping the findings that concern `pid` (e.g. size() wrong after a failed insertion: C05)"""
+    def phase(res, tier):
+        out = k5.explore(tier, C.seed())
+        for b in out["build_errors"]:
+            res.add_broken("K5 harness does not compile against /repo (%s)" % b["config"], b["log"])
+        mine = [f for f in out["findings"] if pid in f["properties"]]
+        for f in mine[:3]:
+            res.add_failing({"what": f["answer"], "config": f["config"], "request": f["request"], "requests": f["prefix"], "harness": "k5"})
+        if mine:
+            res.add_broken("K5 oracle: after a failed or completed request the table's bookkeeping violates %s" % pid)
+        res.cov["k5_scenarios"] = out["scenarios"]
+        res.cov["k5_fault_positions"] = out["fault_positions"]
+        res.cov["k5_findings_for_property"] = len(mine)
+    return phase
+
+
 def run(pid, tier, k3_programs=None):
     res = C.Result(pid, tier)
     known = [k for k in C.load_known().get("findings", []) if pid in k.get("properties", [k.get("property")])]
